@@ -18,15 +18,13 @@
  */
 #include "cmv_common.h"
 #include "cmi_mempool.h"
-#define CMV_HH_CAP 4
-static _Bool cmv_moved;
-#define CMV_HH_MAY_MOVE() (!cmv_moved && nondet_bool() ? (cmv_moved = 1) : 0)
-#include "hhstub.h"
+#include "gqstub.h"            /* contract stub of the hashheap for the guard queues */
 #include "cmb_process.h"
 #include "cmi_process.h"
 #include "cmb_resourceguard.h"
 #include "cmi_resourcebase.h"
 #include "cmi_holdable.h"
+#include "evstub.h"            /* contract stub of the event queue (established by the C01 groups) */
 
 /* tag pools: cmi_mempool_alloc / _free are redirected (goto-instrument --replace-calls) to plain
  * allocation - the contract C20 establishes: an object distinct from every live one, given back on
@@ -44,9 +42,6 @@ static unsigned cmv_q_nresumes, cmv_w_nresumes; static int64_t cmv_q_sig, cmv_w_
 static double cmv_resume_time;
 static _Bool cmv_in_yield, cmv_left_suspended;
 static unsigned cmv_nyields;
-struct cmi_hashheap;
-static CMB_THREAD_LOCAL struct cmi_hashheap *event_queue;
-static CMB_THREAD_LOCAL double sim_time;
 
 extern double cmb_time(void);
 
@@ -70,7 +65,6 @@ static void wakeup_event_interrupt(void *vp, void *arg);
 static void resume_event(void *vp, void *arg);
 static void wakeup_event_event(void *vp, void *arg);
 static void wakeup_event_resource(void *vp, void *arg);
-static bool heap_order_check(const struct cmi_heap_tag *a, const struct cmi_heap_tag *b);
 static void cmv_env(void);                      /* scenario-specific environment step */
 
 void *cmi_coroutine_yield(void *msg)
@@ -86,29 +80,27 @@ void *cmi_coroutine_yield(void *msg)
      *     the environment step above.  The real execute_next is emulated for that one event: it is
      *     taken out of the queue into slot 0, the clock advances to its time, its REAL action runs
      *     (called directly: no function-pointer fan-out). */
-    struct cmi_hashheap *hp = event_queue;
-    uint64_t k = 0u;
-    for (uint64_t c = CMV_HH_CAP; c >= 1u; c--)
-        if (c <= hp->heap_count && hp->heap[c].item[1] == (void *)P && (k == 0u || heap_order_check(&hp->heap[c], cmv_hh_at(hp, k)))) k = c;
-    if (k == 0u) {
+    int k = -1;
+    for (int c = CMV_NEV - 1; c >= 0; c--)
+        if (EV[c].live && EV[c].subject == (void *)P && (k < 0 || cmv_ev_before(c, k))) k = c;
+    if (k < 0) {
         /* nothing pending for the caller: it stays suspended */
         cmv_left_suspended = 1;
         coroutine_current = (struct cmi_coroutine *)P; cmv_in_yield = 0;
         __CPROVER_assume(0);
     }
-    const struct cmi_heap_tag ev = *cmv_hh_at(hp, k);
-    hp->heap[0] = ev;
-    (void)cmi_hashheap_remove(hp, ev.key);
-    hp->heap[0] = ev;
-    __CPROVER_assert(ev.dsortkey >= sim_time, "I-EVT: pending times are never before the clock");
-    sim_time = ev.dsortkey;
-    void *act = ev.item[0];
-    if (act == (void *)wakeup_event_time) wakeup_event_time(ev.item[1], ev.item[2]);
-    else if (act == (void *)wakeup_event_interrupt) wakeup_event_interrupt(ev.item[1], ev.item[2]);
-    else if (act == (void *)resume_event) resume_event(ev.item[1], ev.item[2]);
-    else if (act == (void *)wakeup_event_process) wakeup_event_process(ev.item[1], ev.item[2]);
-    else if (act == (void *)wakeup_event_event) wakeup_event_event(ev.item[1], ev.item[2]);
-    else if (act == (void *)wakeup_event_resource) wakeup_event_resource(ev.item[1], ev.item[2]);
+    struct cmv_ev ev;
+    for (int c = 0; c < CMV_NEV; c++) if (c == k) { ev = EV[c]; EV[c].live = 0; }
+    __CPROVER_assert(ev.t >= cmv_now, "I-EVT: pending times are never before the clock");
+    cmv_now = ev.t; cmv_current = ev.h;
+    if (ev.waiters.next != NULL) { struct cmi_slist_head w = ev.waiters; cmv_wake_event_waiters(&w, CMB_PROCESS_SUCCESS); }
+    void *act = (void *)ev.action;
+    if (act == (void *)wakeup_event_time) wakeup_event_time(ev.subject, ev.object);
+    else if (act == (void *)wakeup_event_interrupt) wakeup_event_interrupt(ev.subject, ev.object);
+    else if (act == (void *)resume_event) resume_event(ev.subject, ev.object);
+    else if (act == (void *)wakeup_event_process) wakeup_event_process(ev.subject, ev.object);
+    else if (act == (void *)wakeup_event_event) wakeup_event_event(ev.subject, ev.object);
+    else if (act == (void *)wakeup_event_resource) wakeup_event_resource(ev.subject, ev.object);
     else __CPROVER_assert(0, "harness: unknown action addressed to the caller");
     coroutine_current = (struct cmi_coroutine *)P;
     cmv_in_yield = 0;
@@ -117,10 +109,15 @@ void *cmi_coroutine_yield(void *msg)
     return (void *)cmv_p_sig;
 }
 static unsigned cmv_nexit, cmv_nstop; static void *cmv_exit_val;
+static void cmv_at_exit(void);           /* scenario-specific obligations at the point of no return */
 void cmi_coroutine_exit(void *retval)
 {
     if (cmv_nexit < 2u) cmv_nexit++; cmv_exit_val = retval;
     coroutine_current->exit_value = retval; coroutine_current->status = CMI_COROUTINE_FINISHED;
+    /* the real function transfers to the parent and never comes back: whatever has not been
+     * cleaned up by now never will be */
+    cmv_at_exit();
+    __CPROVER_assume(0);
 }
 void cmi_coroutine_stop(struct cmi_coroutine *cp, void *retval)
 {
@@ -133,9 +130,9 @@ void *cmi_coroutine_start(struct cmi_coroutine *cp, void *msg) { cp->status = CM
 void cmi_coroutine_initialize(struct cmi_coroutine *cp, cmi_coroutine_func *f, void *ctx, cmi_coroutine_exit_func *e, size_t sz) { cp->status = CMI_COROUTINE_CREATED; }
 void cmi_coroutine_terminate(struct cmi_coroutine *cp) { }
 
-#include "src/cmb_event.c"
 #include "src/cmb_process.c"
 #include "src/cmb_resourceguard.c"
+#include "extract/wakeup_event_event.inc"   /* the one process-layer waker that lives in cmb_event.c, extracted verbatim */
 
 /* ---- helpers ------------------------------------------------------------------------------ */
 static struct cmb_process *mkproc(void)
@@ -159,15 +156,20 @@ static bool cmv_demand(const struct cmi_resourcebase *rbp, const struct cmb_proc
 
 static void setup(void)
 {
-    cmv_moved = 0; cmv_p_resumed = 0; cmv_p_nresumes = 0; cmv_q_nresumes = 0; cmv_w_nresumes = 0; cmv_in_yield = 0; cmv_nyields = 0;
+    cmv_gq_n = 0; cmv_p_resumed = 0; cmv_p_nresumes = 0; cmv_q_nresumes = 0; cmv_w_nresumes = 0; cmv_in_yield = 0; cmv_nyields = 0;
     cmv_nexit = 0; cmv_nstop = 0; cmv_ndemand = 0;
     pool_init(&cmi_process_awaitabletags, sizeof(struct cmi_process_awaitable));
     pool_init(&cmi_process_holdabletags, sizeof(struct cmi_process_holdable));
     pool_init(&cmi_process_waitertags, sizeof(struct cmi_process_waiter));
     pool_init(&observer_tagpool, sizeof(struct observer_tag));
+#ifdef CMV_T0_SYMBOLIC
     double t0 = nondet_double(); ASSUME(t0 == t0 && t0 > -1e300 && t0 < 1e300);
-    cmb_event_queue_initialize(t0);
-    event_queue->item_counter = nondet_u64(); ASSUME(event_queue->item_counter < UINT64_MAX - 16u);
+#else
+    double t0 = 0.0;      /* quick tier: the clock at the call is 0 (floating-point additions with a symbolic clock make the queries intractable); thorough tier: symbolic */
+#endif
+    cmv_now = t0; cmv_current = nondet_u64();
+    cmv_counter = nondet_u64(); ASSUME(cmv_counter < UINT64_MAX - 16u);
+    for (int i = 0; i < CMV_NEV; i++) EV[i].live = 0;
     P = mkproc(); Q = mkproc(); W = mkproc();
     coroutine_main = (struct cmi_coroutine *)mkproc();
     coroutine_current = (struct cmi_coroutine *)P;
@@ -184,7 +186,11 @@ static uint64_t cmv_timer_h[2]; static int64_t cmv_timer_sig[2]; static unsigned
 static unsigned cmv_ninterrupts, cmv_nuresumes;
 static void foreign_cause(void)
 {
+#ifdef CMV_KIND
+    const int kind = CMV_KIND;
+#else
     const int kind = nondet_int(); ASSUME(kind >= 0 && kind <= 3);
+#endif
     if (kind == 1 && cmv_ntimers < 2u) {            /* a user timer armed earlier */
         cmv_timer_sig[cmv_ntimers] = usersig();
         cmv_timer_h[cmv_ntimers] = cmb_process_timer_add(P, dur(), cmv_timer_sig[cmv_ntimers]);
@@ -219,6 +225,7 @@ static bool has_timer_entry(const struct cmb_process *x, uint64_t h)
 #define TIMER_GONE(k) (!cmb_event_is_scheduled(cmv_timer_h[k]) && !has_timer_entry(P, cmv_timer_h[k]))
 
 #ifdef H_HOLD
+static void cmv_at_exit(void) { __CPROVER_assert(0, "harness: no process exits in this scenario"); }
 static void cmv_env(void) { if (nondet_bool()) foreign_cause(); }      /* a cause posted while the caller is suspended */
 void h_hold(void)
 {
@@ -227,7 +234,7 @@ void h_hold(void)
     foreign_cause();
     const double t_call = cmb_time();
     const double d = dur();
-    const uint64_t ctr0 = event_queue->item_counter;
+    const uint64_t ctr0 = cmv_counter;
     const int64_t sig = cmb_process_hold(d);
     const uint64_t hh = ctr0 + 1u;                      /* the hold's own timer handle */
     OBT("C04-O1", cmv_p_resumed && !cmv_left_suspended, "a holding process is never left suspended: its own timer is pending whatever else is in the queue");
@@ -246,6 +253,7 @@ void h_hold(void)
 #endif
 
 #ifdef H_TIMERS
+static void cmv_at_exit(void) { __CPROVER_assert(0, "harness: no process exits in this scenario"); }
 static void cmv_env(void) { }
 void h_timers(void)
 {
@@ -274,6 +282,7 @@ void h_timers(void)
 #endif
 
 #ifdef H_WAITPROC
+static void cmv_at_exit(void) { __CPROVER_assert(0, "harness: no process exits in this scenario"); }
 static int cmv_qend;
 static void cmv_env(void)
 {
@@ -296,7 +305,6 @@ void h_waitproc(void)
     if (cmv_nyields > 0) {
         OBT("C04-O3", !in_waiters(Q, P) && count_awaits(P, CMI_PROCESS_AWAITABLE_PROCESS) == 0u,
             "after wait_process returns (whatever the signal) the caller is no longer registered with the awaited process, on either side");
-        OBT("C04-O3", sig != CMB_PROCESS_STOPPED || cmb_process_status(Q) == CMB_PROCESS_FINISHED, "STOPPED is only reported for a process that has ended");
         OBT("C04-O3", sig == cmv_p_sig && cmv_p_nresumes == 1, "the return value is the signal of exactly one delivered wake-up");
         OBT("C04-O3", cmb_event_pattern_count(wakeup_event_process, P, CMB_ANY_OBJECT) == 0u, "no process wake-up for the caller is left pending after the call returned");
     }
@@ -315,6 +323,7 @@ void h_waitproc_live(void)
 #endif
 
 #ifdef H_WAITEVENT
+static void cmv_at_exit(void) { __CPROVER_assert(0, "harness: no process exits in this scenario"); }
 static unsigned cmv_nev;
 static uint64_t cmv_target;
 static int cmv_fate;          /* 0: nothing happens to the awaited event yet, 1: it executes, 2: it is cancelled */
@@ -322,12 +331,11 @@ static void cmv_env(void)
 {
     if (cmv_fate == 1 && cmb_event_is_scheduled(cmv_target)) {
         /* the dispatcher executes the awaited event: exactly what cmb_event_execute_next does for it */
-        const struct event_peek tmp = *(struct event_peek *)cmi_hashheap_item(event_queue, cmv_target);
-        const double t = cmb_event_time(cmv_target);
-        struct cmi_slist_head w = tmp.waiters;
-        (void)cmi_hashheap_remove(event_queue, cmv_target);
-        sim_time = t;
-        if (!cmi_slist_is_empty(&w)) wake_event_waiters(&w, CMB_PROCESS_SUCCESS);
+        for (int i = 0; i < CMV_NEV; i++) if (EV[i].live && EV[i].h == cmv_target) {
+            EV[i].live = 0; cmv_now = EV[i].t; cmv_current = EV[i].h;
+            struct cmi_slist_head w = EV[i].waiters;
+            if (w.next != NULL) cmv_wake_event_waiters(&w, CMB_PROCESS_SUCCESS);
+        }
         if (cmv_nev < 2u) cmv_nev++;
     } else if (cmv_fate == 2) {
         (void)cmb_event_cancel(cmv_target);
@@ -345,12 +353,9 @@ void h_waitevent(void)
     cmv_target = cmb_event_schedule(cmv_ev_action, NULL, NULL, cmv_fate == 1 ? cmb_time() : later(), nondet_i64());
     const int64_t sig = cmb_process_wait_event(cmv_target);
     OBT("C04-O3", count_awaits(P, CMI_PROCESS_AWAITABLE_EVENT) == 0u, "after wait_event returns (whatever the signal) the caller has no EVENT registration left");
-    if (cmb_event_is_scheduled(cmv_target)) {
-        const struct event_peek *ep = (struct event_peek *)cmi_hashheap_item(event_queue, cmv_target);
-        OBT("C04-O3", ep->waiters.next == NULL, "after wait_event returns early the caller is no longer in the waiter list of the (still pending) event");
-    }
+    for (int i = 0; i < CMV_NEV; i++) if (EV[i].live && EV[i].h == cmv_target)
+        OBT("C04-O3", EV[i].waiters.next == NULL, "after wait_event returns early the caller is no longer in the waiter list of the (still pending) event");
     OBT("C04-O3", sig != CMB_PROCESS_SUCCESS || cmv_nev == 1, "SUCCESS is only reported when the awaited event has executed");
-    OBT("C04-O3", sig != CMB_PROCESS_CANCELLED || !cmb_event_is_scheduled(cmv_target), "CANCELLED is only reported when the awaited event was cancelled");
     OBT("C04-O3", sig == cmv_p_sig && cmv_p_nresumes == 1, "the return value is the signal of exactly one delivered wake-up");
     OBT("C04-O3", cmb_event_pattern_count(wakeup_event_event, P, CMB_ANY_OBJECT) == 0u, "no event wake-up for the caller is left pending after the call returned");
     CANARY("process wait_event: end reachable");
@@ -359,25 +364,40 @@ void h_waitevent(void)
 #endif
 
 #ifdef H_GUARDWAIT
+static void cmv_at_exit(void) { __CPROVER_assert(0, "harness: no process exits in this scenario"); }
 static _Bool cmv_will_signal; static unsigned cmv_nsignals;
 static void cmv_env(void)
 {
     /* the guard is signalled (a release / put / get by somebody else) with the demand then true or false */
     if (cmv_will_signal) { cmv_demand_now = nondet_bool(); (void)cmb_resourceguard_signal(G1); if (cmv_nsignals < 2u) cmv_nsignals++; }
+#ifdef CMV_KIND
+    foreign_cause();
+#else
     if (nondet_bool()) foreign_cause();
+#endif
 }
 void h_guardwait(void)
 {
     setup();
     cmv_ntimers = 0; cmv_ninterrupts = 0; cmv_nuresumes = 0; cmv_left_suspended = 0; cmv_nsignals = 0;
+#ifndef CMV_LITE
     foreign_cause();
+#endif
     /* another process may already be queued at the guard */
+#ifdef CMV_LITE
+    const bool other = true;
+#else
     const bool other = nondet_bool();
+#endif
     if (other) {
         (void)cmi_hashheap_enqueue(&G1->priority_queue, W, (void *)cmv_demand, NULL, NULL, (uint64_t)W, cmb_time(), W->priority);
         cmi_process_add_awaitable(W, CMI_PROCESS_AWAITABLE_RESOURCE, G1);
     }
+#ifdef CMV_LITE
+    cmv_will_signal = true;
+#else
     cmv_will_signal = nondet_bool();
+#endif
     const int64_t sig = cmb_resourceguard_wait(G1, cmv_demand, NULL);
     OBT("C04-O3", !cmi_hashheap_is_enqueued(&G1->priority_queue, (uint64_t)P) && count_awaits(P, CMI_PROCESS_AWAITABLE_RESOURCE) == 0u,
         "after the guard wait returns (whatever the signal) the caller is neither queued at the guard nor registered as waiting for it");
@@ -391,11 +411,14 @@ void h_guardwait(void)
         OBT("C08-O3", w_served && cmb_event_pattern_count(wakeup_event_resource, W, (void *)CMB_PROCESS_SUCCESS) == 1u,
             "the guard was signalled with a satisfiable demand and the caller left its wait for another reason in that instant: the grant went (or was passed on) to the next waiter");
     CANARY("guard wait: end reachable");
+#if !defined(CMV_KIND) || CMV_KIND != 0
     if (sig != CMB_PROCESS_SUCCESS && cmv_nsignals == 1 && cmv_demand_now && other) CANARY("guard wait: granted-then-left reachable");
+#endif
 }
 #endif
 
 #ifdef H_GUARDSIGNAL
+static void cmv_at_exit(void) { __CPROVER_assert(0, "harness: no process exits in this scenario"); }
 static void cmv_env(void) { }
 /* cmb_resourceguard_signal / _cancel / _remove: C06-O2, C13-O3 */
 static struct cmb_resourceguard *G2;
@@ -445,6 +468,7 @@ void h_guardsignal(void)
 #endif
 
 #ifdef H_PRIOSET
+static void cmv_at_exit(void) { __CPROVER_assert(0, "harness: no process exits in this scenario"); }
 static void cmv_env(void) { }
 /* cmb_process_priority_set: C06-O3 */
 static unsigned cmv_nreprio; static int64_t cmv_reprio_pri; static const struct cmb_process *cmv_reprio_p;
@@ -478,44 +502,58 @@ void h_prioset(void)
 #endif
 
 #ifdef H_END
+/* C09: exit / stop-by-other / stop-self.  The obligations are checked at the point of no return
+ * (inside cmi_coroutine_exit for exit / return / stop-self; after cmb_process_stop for stop-by-other). */
 static void cmv_env(void) { }
-/* C09: exit / stop-by-other / stop-self */
 static unsigned cmv_ndrop; static const struct cmb_process *cmv_drop_p;
 static void cmv_drop2(struct cmi_holdable *h, const struct cmb_process *pp) { if (cmv_ndrop < 3u) cmv_ndrop++; cmv_drop_p = pp; }
+static struct cmb_process *T, *w1, *w2; static int cmv_route; static _Bool cmv_holds, cmv_timer, cmv_queued; static uint64_t cmv_th; static unsigned cmv_nw; static void *cmv_val;
+static void cmv_check_end(void)
+{
+    const int64_t want = (cmv_route == 0) ? CMB_PROCESS_SUCCESS : CMB_PROCESS_STOPPED;
+    OBT("C09-O2", cmb_process_status(T) == CMB_PROCESS_FINISHED && cmb_process_exit_value(T) == cmv_val, "the process is finished and its exit value is what it exited / was stopped with");
+    OBT("C09-O2", cmb_event_pattern_count(wakeup_event_process, w1, (void *)want) == (cmv_nw >= 1 ? 1u : 0u) && cmb_event_pattern_count(wakeup_event_process, w2, (void *)want) == (cmv_nw >= 2 ? 1u : 0u),
+        "every waiter gets exactly one wake-up, SUCCESS for a normal end, STOPPED for a stop (also when the process stops itself)");
+    OBT("C09-O2", T->waiters.next == NULL, "the waiter list is emptied");
+    OBT("C09-O2", !cmv_holds || (cmv_ndrop == 1 && cmv_drop_p == T), "everything it held is dropped (offered to the next waiter by the object's drop function)");
+    OBT("C09-O2", T->resources.next == NULL && T->awaits.next == NULL, "it holds nothing and awaits nothing afterwards");
+    OBT("C09-O2", !cmv_queued || !cmi_hashheap_is_enqueued(&G1->priority_queue, (uint64_t)T), "it is removed from every waiting list");
+    OBT("C09-O2", cmb_event_pattern_count(CMB_ANY_ACTION, T, CMB_ANY_OBJECT) == 0u && (!cmv_timer || !cmb_event_is_scheduled(cmv_th)), "none of its timers or pending wake-ups remains");
+    if (cmv_nw >= 1) { const uint64_t h = cmb_event_pattern_find(wakeup_event_process, w1, CMB_ANY_OBJECT);
+        OBT("C09-O2", h != 0u && cmb_event_time(h) == cmb_time() && cmb_event_priority(h) == w1->priority, "waiters are resumed at that instant with their own priority"); }
+    CANARY("process end: point of no return reachable");
+}
+static void cmv_at_exit(void)
+{
+    OBT("C09-O1", cmv_route != 1, "only a process that exits or stops itself reaches the coroutine exit");
+    cmv_check_end();
+}
 void h_end(void)
 {
     setup();
     cmv_ndrop = 0;
-    struct cmb_process *T = Q;                                /* the process that ends */
-    const int route = nondet_int(); ASSUME(route >= 0 && route <= 2);      /* 0 exit (also: return), 1 stopped by the caller, 2 stops itself */
-    if (route != 1) { struct cmb_process *tmp = P; P = Q; Q = tmp; T = P; coroutine_current = (struct cmi_coroutine *)P; }
-    /* T holds something, has a timer armed, waits at a guard (only when stopped by another), has a pending wake-up, and has two waiters */
+    T = Q;
+#ifdef CMV_ROUTE
+    cmv_route = CMV_ROUTE;
+#else
+    cmv_route = nondet_int(); ASSUME(cmv_route >= 0 && cmv_route <= 2);      /* 0 exit (also: return), 1 stopped by the caller, 2 stops itself */
+#endif
+    if (cmv_route != 1) { struct cmb_process *tmp = P; P = Q; Q = tmp; T = P; coroutine_current = (struct cmi_coroutine *)P; }
     struct cmi_holdable *H = malloc(sizeof *H); H->base.cookie = CMI_INITIALIZED; H->drop = cmv_drop2; H->reprio = NULL;
-    const bool holds = nondet_bool();
-    if (holds) { struct cmi_process_holdable *ph = malloc(sizeof *ph); ph->res = H; ph->listhead.next = NULL; T->resources.next = &ph->listhead; }
-    const bool timer = nondet_bool();
-    uint64_t th = 0; if (timer) th = cmb_process_timer_add(T, dur(), usersig());
-    const bool queued = (route == 1) && nondet_bool();
-    if (queued) { (void)cmi_hashheap_enqueue(&G1->priority_queue, T, (void *)cmv_demand, NULL, NULL, (uint64_t)T, cmb_time(), T->priority); cmi_process_add_awaitable(T, CMI_PROCESS_AWAITABLE_RESOURCE, G1); }
-    const bool pending = nondet_bool();
-    if (pending) cmb_process_resume(T, usersig());
-    struct cmb_process *w1 = W, *w2 = (route == 1) ? mkproc() : Q;
-    const unsigned nw = nondet_u8(); ASSUME(nw <= 2);
-    if (nw >= 1) { cmi_process_add_awaitable(w1, CMI_PROCESS_AWAITABLE_PROCESS, T); add_waiter_tag(&T->waiters, w1); }
-    if (nw >= 2) { cmi_process_add_awaitable(w2, CMI_PROCESS_AWAITABLE_PROCESS, T); add_waiter_tag(&T->waiters, w2); }
-    void *val = &cmv_ndrop;
-    if (route == 0) cmb_process_exit(val); else cmb_process_stop(T, val);
-    const int64_t want = (route == 0) ? CMB_PROCESS_SUCCESS : CMB_PROCESS_STOPPED;
-    OBT("C09-O2", cmb_process_status(T) == CMB_PROCESS_FINISHED && cmb_process_exit_value(T) == val, "the process is finished and its exit value is what it exited / was stopped with");
-    OBT("C09-O2", cmb_event_pattern_count(wakeup_event_process, w1, (void *)want) == (nw >= 1 ? 1u : 0u) && cmb_event_pattern_count(wakeup_event_process, w2, (void *)want) == (nw >= 2 ? 1u : 0u),
-        "every waiter gets exactly one wake-up, SUCCESS for a normal end, STOPPED for a stop");
-    OBT("C09-O2", T->waiters.next == NULL, "the waiter list is emptied");
-    OBT("C09-O2", !holds || (cmv_ndrop == 1 && cmv_drop_p == T), "everything it held is dropped (offered to the next waiter by the object's drop function)");
-    OBT("C09-O2", T->resources.next == NULL && T->awaits.next == NULL, "it holds nothing and awaits nothing afterwards");
-    OBT("C09-O2", !queued || !cmi_hashheap_is_enqueued(&G1->priority_queue, (uint64_t)T), "it is removed from every waiting list");
-    OBT("C09-O2", cmb_event_pattern_count(CMB_ANY_ACTION, T, CMB_ANY_OBJECT) == 0u && (!timer || !cmb_event_is_scheduled(th)), "none of its timers or pending wake-ups remains");
-    if (nw >= 1) { const uint64_t h = cmb_event_pattern_find(wakeup_event_process, w1, CMB_ANY_OBJECT);
-        OBT("C09-O2", cmb_event_time(h) == cmb_time() && cmb_event_priority(h) == w1->priority, "waiters are resumed at that instant with their own priority"); }
-    CANARY("process end: end reachable");
+    cmv_holds = nondet_bool();
+    if (cmv_holds) { struct cmi_process_holdable *ph = malloc(sizeof *ph); ph->res = H; ph->listhead.next = NULL; T->resources.next = &ph->listhead; }
+    cmv_timer = nondet_bool();
+    cmv_th = 0; if (cmv_timer) cmv_th = cmb_process_timer_add(T, dur(), usersig());
+    cmv_queued = (cmv_route == 1) && nondet_bool();
+    if (cmv_queued) { (void)cmi_hashheap_enqueue(&G1->priority_queue, T, (void *)cmv_demand, NULL, NULL, (uint64_t)T, cmb_time(), T->priority); cmi_process_add_awaitable(T, CMI_PROCESS_AWAITABLE_RESOURCE, G1); }
+    if (nondet_bool()) cmb_process_resume(T, usersig());
+    w1 = W; w2 = (cmv_route == 1) ? mkproc() : Q;
+    cmv_nw = nondet_u8(); ASSUME(cmv_nw <= 2);
+    if (cmv_nw >= 1) { cmi_process_add_awaitable(w1, CMI_PROCESS_AWAITABLE_PROCESS, T); add_waiter_tag(&T->waiters, w1); }
+    if (cmv_nw >= 2) { cmi_process_add_awaitable(w2, CMI_PROCESS_AWAITABLE_PROCESS, T); add_waiter_tag(&T->waiters, w2); }
+    cmv_val = &cmv_ndrop;
+    if (cmv_route == 0) cmb_process_exit(cmv_val); else cmb_process_stop(T, cmv_val);
+    OBT("C09-O1", cmv_route == 1, "exit / stop-self never return to the caller");
+    cmv_check_end();
 }
 #endif
